@@ -95,6 +95,14 @@ PayloadOK(e) ==
     /\ e.unknowntype => e.out = "reject"         \* every resource's type exists in the schema
     /\ e.out = "accept" => e.attrs_same /\ e.absent_zero /\ e.idtype_same /\ e.remarshal_same
 
+\* a type with a two-way relationship to itself (up <-> down): a payload that carries data for one
+\* side, the other, both or neither is accepted both ways, and the partial result reports exactly
+\* the sides that carry data, with the ids listed
+SelfPairOK(e) ==
+    /\ e.out = "accept" /\ e.part = "accept"
+    /\ {e.prels[i] : i \in 1..Len(e.prels)} = {e.want[i] : i \in 1..Len(e.want)} /\ Len(e.prels) = Len(e.want)
+    /\ e.vals_ok
+
 \* the members of an accepted array of resource payloads: each keeps its own type, id and values
 ColPayloadOK(e) ==
     /\ e.out = "accept"                       \* every member is a valid payload of a type of the schema
